@@ -22,8 +22,9 @@ RULE = ('one generator, twelve entry points: versionedDecode of every response t
         'decompress() is on the stack; bytes allocated inside decompress() stand in for the decompressed size; the plan entry is bounded by 8192 x '
         'input + 4 MiB). Checksum clause: one bit / one byte changed inside the CRC-covered span of a message or batch => error, or only records in '
         'front of that unit surface (below the fetch level with the partial-trailing flag set); length clause: message size / batch length / '
-        'records size / record varint length (checksum recomputed) changed => error or a prefix of the original records per partition, and an error '
-        'whenever the lying size still delimits a unit inside the buffer; the same one level up on the messages parseResponse hands out; an outcome '
+        'record varint length (checksum recomputed) changed => error or a prefix of the original records per partition, and an error whenever the '
+        'lying size still delimits a unit inside the buffer; records size of a fetch partition changed (the envelope behind it is framed anew and '
+        'carries no checksum) => error or only records of the original response surface; the same one level up on the messages parseResponse hands out; an outcome '
         'outside these is excused only if the harness\'s own strict parser accepts the mutated bytes and agrees with sarama. Non-trivial: the input is a '
         'mutation of a valid encoding, or noise of which the decoder consumed >= 8 bytes; distinct = (entry, type, version, hash of the input).')
 
